@@ -15,12 +15,19 @@ Executable model (core Lean only) of
   `::end_of_iteration_processing` (inter-iteration filter l.545-550, post-filter l.556-563)
                                                         src/recon_buildblock/IterativeReconstruction.cxx
 
+* `get_viewgrams` / `zero_end_sinograms` (l.148-228: the option `zero end planes of segment 0`), the choice of the bins of a
+  subset in `distributable_computation` (l.398-399)        src/recon_buildblock/distributable.cxx
+  and what `RPC_process_related_viewgrams_gradient` / `…_sensitivity_computation` back project
+  (PoissonLogLikelihoodWithLinearModelForMeanAndProjData.cxx:1447-1563), over an explicit system matrix: `emExplicit`
+
 Numbers are `Rat` (every float is a dyadic rational; float *rounding* is not modelled, the correspondence check
 compares with a derived tolerance).  Where float arithmetic leaves the rationals (non-zero / 0) the model uses `Ext`.
 
 What the objective function, the prior and user filters deliver is DATA for this model (fields `gps`, `sens`,
 `priorGrad`, `interUpdateFilter`, `interIterationFilter` of `Cfg`): their correctness is the business of properties C05
-and C09; the harness takes them from the real objects.  Images are the list of voxel values in `begin_all()` order.
+and C09; the harness takes them from the real objects — except in `emExplicit` (end of this file), where the model forms
+numerator and sensitivity itself from an explicit system matrix (the matrix ELEMENTS are then the data: C04).
+Images are the list of voxel values in `begin_all()` order.
 -/
 namespace StirVerif.C07
 
@@ -372,5 +379,100 @@ def balanced (y : Sym) (minV maxV maxSeg : Int) (n : Nat) : Bool :=
     sensitivity) -/
 def setUpAcceptsSubsets (y : Sym) (minV maxV maxSeg : Int) (n : Int) : Bool :=
   decide (1 ≤ n) && balanced y minV maxV maxSeg n.toNat
+
+/-! ### the explicit system: the EM update from a system matrix, `zero end planes of segment 0`
+
+The data that `Cfg.gps` / `Cfg.sens` stand for, written out for projection data with an explicit system matrix (one `Row`
+per bin), as `PoissonLogLikelihoodWithLinearModelForMeanAndProjData` computes them through `distributable_computation`
+(src/recon_buildblock/distributable.cxx): per basic view/segment of the subset, `get_viewgrams` (l.165-228) fetches the
+measured viewgrams `y`, the additive viewgrams and the multiplicative viewgrams (normalisation undone on ones; ones when
+there is no normalisation but `zero_seg0_end_planes` is set), and — the option `zero end planes of segment 0`
+(`set_zero_seg0_end_planes`) — for segment 0 sets the first and the last axial position of ALL THREE to zero
+(`zero_end_sinograms`, l.148-163, called l.222-227).  The numerator of the update back projects `y / (forward projection +
+additive)` of these viewgrams (`RPC_process_related_viewgrams_gradient`, PoissonLogLikelihoodWithLinearModelForMeanAndProjData.cxx:1447-1507),
+the sensitivity back projects the multiplicative viewgrams (`RPC_process_related_viewgrams_sensitivity_computation`, l.1543-1563). -/
+
+/-- one bin of the projection data = one row of the system matrix, with what the viewgrams hold for it -/
+structure Row where
+  seg : Int                   -- segment number
+  basicView : Int             -- view number of the basic (view, segment) pair its viewgram is related to
+  ax : Int                    -- axial position number
+  minAx : Int                 -- `get_min_axial_pos_num()` of its viewgram
+  maxAx : Int                 -- `get_max_axial_pos_num()` of its viewgram
+  y : Rat                     -- measured counts
+  a : Rat                     -- additive term
+  eff : Rat                   -- multiplicative viewgram: `1 / normalisation factor`, `1` without normalisation
+  elems : List (Nat × Rat)    -- (voxel index j, P_bj)
+
+/-- is the bin in one of the sinograms that `get_viewgrams` zeroes (distributable.cxx:222-227 with l.154-160):
+    `segment_num() == 0 && zero_seg0_end_planes`, axial position `min_ax_pos_num` or `max_ax_pos_num` -/
+def zeroedEndPlane (zeroSeg0EndPlanes : Bool) (r : Row) : Bool :=
+  zeroSeg0EndPlanes && r.seg == 0 && (r.ax == r.minAx || r.ax == r.maxAx)
+
+/-- `zero_end_sinograms(y); zero_end_sinograms(additive_binwise_correction_viewgrams); zero_end_sinograms(mult_viewgrams_sptr)`:
+    the three viewgrams are zeroed, the bin stays where it is -/
+def zeroEndSinograms (zeroSeg0EndPlanes : Bool) (r : Row) : Row :=
+  if zeroedEndPlane zeroSeg0EndPlanes r then { r with y := 0, a := 0, eff := 0 } else r
+
+/-- the bins `distributable_computation` visits for subset `subset` of `numSubsets` (l.398-399,
+    `detail::find_basic_vs_nums_in_subset`: segments `-maxSeg … maxSeg`, basic views `subset, subset + numSubsets, …`, and
+    everything related to them by the symmetries of the projector) -/
+def rowInSubset (maxSeg : Int) (numSubsets subset : Nat) (r : Row) : Bool :=
+  decide (-maxSeg ≤ r.seg) && decide (r.seg ≤ maxSeg) && r.basicView.tmod (numSubsets : Int) == (subset : Int)
+
+/-- `P_bj` -/
+def coeff (r : Row) (j : Nat) : Rat := (r.elems.filter fun e => e.1 == j).foldr (fun e acc => e.2 + acc) 0
+
+/-- the image as a function of the voxel index -/
+def voxelOf (lam : Img) (j : Nat) : Rat := lam.getD j 0
+
+/-- forward projection of the bin, `(Pλ)_b` -/
+def fwdRow (lam : Img) (r : Row) : Rat := r.elems.foldr (fun e acc => e.2 * voxelOf lam e.1 + acc) 0
+
+/-- the quotient `y_b / ((Pλ)_b + a_b)` of `divide_and_truncate` on its regular region (the quotient of a bin without
+    counts is 0 whatever the denominator) -/
+def ratioRow (lam : Img) (r : Row) : Rat := if r.y = 0 then 0 else r.y / (fwdRow lam r + r.a)
+
+def sumR (l : List Rat) : Rat := l.foldr (fun x acc => x + acc) 0
+
+/-- voxel `j` of the back projection of the quotients of `rows`: `Σ_b P_bj y_b / ((Pλ)_b + a_b)` -/
+def gpsVoxel (rows : List Row) (lam : Img) (j : Nat) : Rat := sumR (rows.map fun r => coeff r j * ratioRow lam r)
+
+/-- voxel `j` of the back projection of the multiplicative viewgrams of `rows`: `Σ_b P_bj eff_b` -/
+def sensVoxel (rows : List Row) (j : Nat) : Rat := sumR (rows.map fun r => coeff r j * r.eff)
+
+/-- the viewgrams one call of `distributable_computation` works on: bins of the subset, end planes of segment 0 zeroed
+    when the option is set -/
+def subsetViewgrams (zeroSeg0EndPlanes : Bool) (maxSeg : Int) (numSubsets subset : Nat) (rows : List Row) : List Row :=
+  (rows.filter (rowInSubset maxSeg numSubsets subset)).map (zeroEndSinograms zeroSeg0EndPlanes)
+
+/-- voxel `j` of `compute_sub_gradient_without_penalty_plus_sensitivity(·, λ, subset)` (regular region) -/
+def gpsExplicit (zeroSeg0EndPlanes : Bool) (maxSeg : Int) (numSubsets subset : Nat) (rows : List Row) (lam : Img) (j : Nat) : Rat :=
+  gpsVoxel (subsetViewgrams zeroSeg0EndPlanes maxSeg numSubsets subset rows) lam j
+
+/-- voxel `j` of `get_subset_sensitivity(subset)`: with `use_subset_sensitivities` the back projection of the
+    multiplicative viewgrams of the subset (`add_subset_sensitivity`), otherwise the sum over all subsets divided by
+    `num_subsets` (`set_total_or_subset_sensitivities`) -/
+def sensExplicit (zeroSeg0EndPlanes useSubsetSens : Bool) (maxSeg : Int) (numSubsets subset : Nat) (rows : List Row) (j : Nat) : Rat :=
+  if useSubsetSens then sensVoxel (subsetViewgrams zeroSeg0EndPlanes maxSeg numSubsets subset rows) j
+  else sensVoxel (subsetViewgrams zeroSeg0EndPlanes maxSeg 1 0 rows) j / (numSubsets : Rat)
+
+/-- the voxels `js` of the image after `update_estimate` at sub-iteration `k`, no prior, no inter-update filter, data from
+    the explicit system: `updVoxel` (the model of the update above) fed with `gpsExplicit` and `sensExplicit` -/
+def emExplicit (c : Cfg) (zeroSeg0EndPlanes useSubsetSens : Bool) (maxSeg : Int) (rows : List Row) (k : Nat) (lam : Img)
+    (js : List Nat) : List Ext :=
+  let S := subsetNum k c.startSubset c.numSubsets
+  let used := subsetViewgrams zeroSeg0EndPlanes maxSeg c.numSubsets S rows
+  let sensRows := if useSubsetSens then used else subsetViewgrams zeroSeg0EndPlanes maxSeg 1 0 rows
+  let ratios := used.map fun r => (r, ratioRow lam r)
+  js.map fun j =>
+    let g := sumR (ratios.map fun p => coeff p.1 j * p.2)
+    let s := if useSubsetSens then sensVoxel sensRows j else sensVoxel sensRows j / (c.numSubsets : Rat)
+    updVoxel .none c.numSubsets 0 (k != 1) c.minRel c.maxRel (voxelOf lam j) g s 0
+
+/-- is the sub-iteration on the regular region of `divide_and_truncate`: every bin of the subset with counts has a non-zero
+    estimate -/
+def regularStep (zeroSeg0EndPlanes : Bool) (maxSeg : Int) (numSubsets subset : Nat) (rows : List Row) (lam : Img) : Bool :=
+  (subsetViewgrams zeroSeg0EndPlanes maxSeg numSubsets subset rows).all fun r => r.y == 0 || fwdRow lam r + r.a != 0
 
 end StirVerif.C07
